@@ -18,14 +18,23 @@ func TestMain(m *testing.M) { evid.Main(m, "C03") }
 
 // cell is one sanitization context reachable from a template.
 type cell struct {
-	ID    string
-	Tmpl  string   // contains {{.V}}
-	Own   []string // safe types whose contract covers this context
-	Attr  string   // attribute that holds the value ("" = element content / comment)
-	Class string
+	ID        string
+	Tmpl      string   // contains {{.V}}
+	Own       []string // safe types whose contract covers this context
+	Attr      string   // attribute that holds the value ("" = element content / comment)
+	Class     string
+	MayReject bool // shapes the engine refuses today (conditional names with an empty branch, ...): no acceptance required
 }
 
-func mk(id, class, tmpl, attr string, own ...string) cell { return cell{id, tmpl, own, attr, class} }
+func mk(id, class, tmpl, attr string, own ...string) cell {
+	return cell{ID: id, Tmpl: tmpl, Own: own, Attr: attr, Class: class}
+}
+
+func mkr(id, class, tmpl, attr string, own ...string) cell {
+	c := mk(id, class, tmpl, attr, own...)
+	c.MayReject = true
+	return c
+}
 
 var cells = []cell{
 	mk("text-top", "HTML", `{{.V}}`, "", "HTML"),
@@ -73,6 +82,26 @@ var cells = []cell{
 	mk("tru-prefix-path", "TRU+prefix", `<script src="/x/{{.V}}"></script>`, "src"),
 	mk("tru-prefix-query", "TRU+prefix", `<script src='https://h/x?q={{.V}}'></script>`, "src"),
 	mk("tru-prefix-link", "TRU+prefix", `<link rel="stylesheet" href="//h/{{.V}}.css">`, "href"),
+	// the context of the second element must not be inherited from the first
+	mk("tru-link-after-icon", "TrustedResourceURL", `<link rel="icon" href="{{.U}}"><link rel="stylesheet" href="{{.V}}">`, "href", "TrustedResourceURL"),
+	mk("tru-script-after-img", "TrustedResourceURL", `<img src="{{.U}}"><script src="{{.V}}"></script>`, "src", "TrustedResourceURL"),
+	mk("url-form-after-a", "URL", `<a href="{{.U}}">x</a><form action="{{.V}}">`, "action", "URL"),
+	mk("none-after-srcdoc", "None", `<iframe srcdoc="{{.H}}"></iframe><div title="{{.V}}">`, "title"),
+	mk("rcdata-after-div", "RCDATA", `<div>{{.H}}</div><textarea>{{.V}}</textarea>`, ""),
+	mk("ident-after-title", "Identifier", `<p title="{{.U}}" id="{{.V}}">`, "id", "Identifier"),
+	// conditional names: both alternatives listed
+	mk("none-cond-attr", "None", `<label {{if .C}}lang{{else}}translate{{end}}="{{.V}}">`, "lang"),
+	mk("truorurl-cond-elem", "TrustedResourceURLOrURL", `{{if .C}}<img{{else}}<audio{{end}} src="{{.V}}">`, "src", "URL", "TrustedResourceURL"),
+	// shapes refused today: whatever a change makes of them, a value is never emitted intact outside its own context
+	mkr("cond-attr-empty-branch", "None", `<a {{if .C}}title{{end}}="{{.V}}">`, "title"),
+	mkr("cond-attr-empty-branch-href", "TrustedResourceURLOrURL", `<a {{if .C}}href{{end}}="{{.V}}">`, "href", "URL", "TrustedResourceURL"),
+	mkr("cond-attr-empty-else", "None", `<a {{if .F}}{{else}}title{{end}}="{{.V}}">`, "title"),
+	mkr("range-attr", "None", `<a {{range .L}}title{{end}}="{{.V}}">`, "title"),
+	mkr("unquoted", "None", `<a title={{.V}}>`, "title"),
+	mkr("attr-name", "None", `<a {{.V}}="x">`, ""),
+	mkr("unknown-attr", "None", `<a foo="{{.V}}">`, "foo"),
+	mkr("onclick", "Script", `<a onclick="{{.V}}">`, "onclick"),
+	mkr("unknown-elem", "HTML", `<foo>{{.V}}</foo>`, ""),
 }
 
 type Case struct {
@@ -130,7 +159,7 @@ func check(c Case) evid.Outcome {
 		if perr != nil {
 			panic(perr)
 		}
-		return tx.Exec(t, map[string]interface{}{"V": v})
+		return tx.Exec(t, map[string]interface{}{"V": v, "U": "/u", "H": tx.Typed("HTML", "<i>h</i>"), "C": true, "F": false, "L": []int{1}})
 	}
 	tout, terr := run(value(c))
 	own := isOwn(cl, c.Type) && !c.NilPtr
@@ -164,10 +193,9 @@ func check(c Case) evid.Outcome {
 			if r.Tokens[i].Kind == htmltok.StartTag {
 				for k := range r.Tokens[i].Attrs {
 					if r.Tokens[i].Attrs[k].Name == cl.Attr {
-						av = &r.Tokens[i].Attrs[k]
+						av = &r.Tokens[i].Attrs[k] // the last element carrying the attribute
 					}
 				}
-				break
 			}
 		}
 		if av == nil {
@@ -269,12 +297,14 @@ func TestPropCore(t *testing.T) {
 				if perr != nil {
 					t.Fatalf("cell %s does not parse: %v", cl.ID, perr)
 				}
-				if _, err := tx.Exec(tt, map[string]interface{}{"V": tx.Typed(ty, s)}); err == nil {
+				if false {
+				}
+				if _, err := tx.Exec(tt, map[string]interface{}{"V": tx.Typed(ty, s), "U": "/u", "H": tx.Typed("HTML", "<i>h</i>"), "C": true, "F": false, "L": []int{1}}); err == nil {
 					okSome = true
 				}
 			}
 		}
-		if !okSome {
+		if !okSome && !cl.MayReject {
 			t.Fatalf("cell %s (%s) accepts nothing", cl.ID, cl.Tmpl)
 		}
 	}
